@@ -133,6 +133,9 @@ func (x *exec) ev(e Expr, env *Env, hint types.Type) *Val {
 		case *types.Slice:
 			iv := x.ev(n.I, env, types.Typ[types.Int])
 			idx := x.c.Convert(x.term(iv), iv.Typ, types.Typ[types.Int])
+			if xv.Seq != nil {
+				return x.mkVal(Sel(xv.Seq.arr, x.c.IAdd(xv.Seq.off, idx)), u.Elem())
+			}
 			return x.load(env.st, &Loc{K: LElem, Slice: x.term(xv), Idx: idx, T: u.Elem()}, u.Elem())
 		case *types.Array:
 			iv := x.ev(n.I, env, types.Typ[types.Int])
@@ -162,6 +165,18 @@ func (x *exec) ev(e Expr, env *Env, hint types.Type) *Val {
 		xv := x.ev(n.X, env, nil)
 		if !isSliceType(xv.Typ) {
 			fail("spec: slice expression on %s", xv.Typ)
+		}
+		if xv.Seq != nil {
+			lo, hi := x.c.ILit(0), xv.Seq.ln
+			if n.Lo != nil {
+				v := x.ev(n.Lo, env, types.Typ[types.Int])
+				lo = x.c.Convert(x.term(v), v.Typ, types.Typ[types.Int])
+			}
+			if n.Hi != nil {
+				v := x.ev(n.Hi, env, types.Typ[types.Int])
+				hi = x.c.Convert(x.term(v), v.Typ, types.Typ[types.Int])
+			}
+			return &Val{Typ: xv.Typ, Seq: &seqView{arr: xv.Seq.arr, off: x.c.IAdd(xv.Seq.off, lo), ln: x.c.ISub(hi, lo)}}
 		}
 		sl := x.term(xv)
 		lo, hi := x.c.ILit(0), App("s-len", sl)
@@ -351,7 +366,10 @@ func (x *exec) evBin(n *EBin, env *Env, hint types.Type) *Val {
 	// operands: evaluate the non-literal side first for the type hint
 	var a, b *Val
 	_, xl := n.X.(*ELit)
-	if xl {
+	if n.Op == "<<" || n.Op == ">>" {
+		a = x.ev(n.X, env, hint)
+		b = x.ev(n.Y, env, types.Typ[types.Uint])
+	} else if xl {
 		b = x.ev(n.Y, env, opHint(n.Op, hint))
 		a = x.ev(n.X, env, b.Typ)
 	} else {
@@ -509,6 +527,9 @@ func (x *exec) evCall(n *ECall, env *Env, hint types.Type) *Val {
 			intT := types.Typ[types.Int]
 			switch u := v.Typ.Underlying().(type) {
 			case *types.Slice:
+				if v.Seq != nil {
+					return x.mkVal(v.Seq.ln, intT)
+				}
 				if id.Name == "len" {
 					return x.mkVal(App("s-len", x.term(v)), intT)
 				}
@@ -533,7 +554,9 @@ func (x *exec) evCall(n *ECall, env *Env, hint types.Type) *Val {
 			ne := *env
 			ne.st = env.old
 			return x.ev(n.Args[0], &ne, hint)
-		case "result":
+		case "sameArray":
+			a, b := x.ev(n.Args[0], env, nil), x.ev(n.Args[1], env, nil)
+			return x.mkVal(Eq(App("s-ref", x.term(a)), App("s-ref", x.term(b))), types.Typ[types.Bool])
 		}
 		// spec function?
 		if sf := x.p.Contracts.Specs[env.specPkg()][id.Name]; sf != nil {
@@ -618,6 +641,18 @@ func (x *exec) specConvert(v *Val, to types.Type) *Val {
 	return nil
 }
 
+// seqView is a slice seen as a value sequence.
+type seqView struct{ arr, off, ln string }
+
+func (x *exec) seqOf(v *Val, sl *types.Slice, st *State) *seqView {
+	if v.Seq != nil {
+		return v.Seq
+	}
+	an, asort := x.elemArr(sl.Elem())
+	t := x.term(v)
+	return &seqView{arr: Sel(x.h.get(st, an, asort), App("s-ref", t)), off: App("s-off", t), ln: App("s-len", t)}
+}
+
 // callPure applies a function or method with a `pure` contract as an uninterpreted function.
 func (x *exec) callPure(m *types.Func, recv *Val, args []Expr, env *Env) *Val {
 	sig := m.Type().(*types.Signature)
@@ -649,6 +684,13 @@ func (x *exec) pureApp(key string, con *Contract, sig *types.Signature, args []*
 	rt := sig.Results().At(0).Type()
 	var sorts, ts []string
 	for _, a := range args {
+		if sl, ok := a.Typ.Underlying().(*types.Slice); ok && !con.Claims["byref"] {
+			// a pure function reads a slice through its contents, offset and length
+			sv := x.seqOf(a, sl, st)
+			sorts = append(sorts, fmt.Sprintf("(Array %s %s)", x.c.I(), x.c.SortOf(sl.Elem())), x.c.I(), x.c.I())
+			ts = append(ts, sv.arr, sv.off, sv.ln)
+			continue
+		}
 		sorts = append(sorts, x.c.SortOf(a.Typ))
 		ts = append(ts, x.term(a))
 	}
@@ -700,6 +742,11 @@ func (x *exec) callSpec(sf *Contract, args []Expr, env *Env) *Val {
 	var ts []string
 	for i, a := range args {
 		v := x.ev(a, env, f.ptypes[i])
+		if sl, ok := f.ptypes[i].Underlying().(*types.Slice); ok && isSliceType(v.Typ) {
+			sv := x.seqOf(v, sl, env.st)
+			ts = append(ts, sv.arr, sv.off, sv.ln)
+			continue
+		}
 		if x.c.SortOf(v.Typ) != x.c.SortOf(f.ptypes[i]) {
 			if isInt(v.Typ) && isInt(f.ptypes[i]) {
 				v = x.specConvert(v, f.ptypes[i])
@@ -740,6 +787,11 @@ func (x *exec) compileSpec(sf *Contract, env *Env) *specFn {
 		}
 		vars := map[string]*Val{}
 		for i, p := range sf.Params {
+			if isSliceType(f.ptypes[i]) {
+				// slices are seen by spec functions as value sequences (contents, offset, length)
+				vars[p] = &Val{Typ: f.ptypes[i], Seq: &seqView{arr: "sp!" + p + ".arr", off: "sp!" + p + ".off", ln: "sp!" + p + ".len"}}
+				continue
+			}
 			vars[p] = x.mkVal("sp!"+p, f.ptypes[i])
 		}
 		ne := &Env{x: x, vars: vars, st: st, pkg: tp, fnPkg: sf.PkgPath}
@@ -772,10 +824,28 @@ func (x *exec) compileSpec(sf *Contract, env *Env) *specFn {
 	}
 	var params [][2]string
 	for i, p := range sf.Params {
+		if sl, ok := f.ptypes[i].Underlying().(*types.Slice); ok {
+			params = append(params, [2]string{"sp!" + p + ".arr", fmt.Sprintf("(Array %s %s)", x.c.I(), x.c.SortOf(sl.Elem()))},
+				[2]string{"sp!" + p + ".off", x.c.I()}, [2]string{"sp!" + p + ".len", x.c.I()})
+			continue
+		}
 		params = append(params, [2]string{"sp!" + p, x.c.SortOf(f.ptypes[i])})
 	}
 	for i, h := range f.heap {
 		params = append(params, [2]string{"hp!" + sanitize(h), f.sorts[i]})
+	}
+	if sf.Opaque {
+		// uninterpreted symbol + defining axiom with the application as trigger
+		var sorts, bind, names []string
+		for _, pr := range params {
+			sorts = append(sorts, pr[1])
+			bind = append(bind, fmt.Sprintf("(%s %s)", pr[0], pr[1]))
+			names = append(names, pr[0])
+		}
+		x.c.Fun(f.name, sorts, x.c.SortOf(f.rt))
+		app := App(f.name, names...)
+		x.c.Axiom([]string{f.name}, fmt.Sprintf("(forall (%s) (! (= %s %s) :pattern (%s)))", strings.Join(bind, " "), app, body, app))
+		return f
 	}
 	x.c.DefineFun(f.name, params, x.c.SortOf(f.rt), body, strings.Contains(body, "("+f.name+" "))
 	return f
